@@ -35,6 +35,12 @@ def prep():
         f.write(b'keep')
     with open(os.path.join(w, 'x'), 'wb') as f:
         f.write(b'original-x')
+    # what the hostile side's symbolic links point at: must stay byte-, mode- and time-identical
+    for p in (os.path.join(w, 'outside-target'), os.path.join(w, 'dl', 'outside-target')):
+        with open(p, 'wb') as f:
+            f.write(b'private')
+        os.chmod(p, 0o600)
+        os.utime(p, (1500000000, 1500000000))
     return w, os.path.join(w, 'dl', 'dest')
 
 
@@ -51,7 +57,8 @@ def outside_state(w):
                 out.append((p, b'LINK:' + os.readlink(p).encode()))
             else:
                 try:
-                    out.append((p, open(p, 'rb').read()))
+                    st = os.lstat(p)
+                    out.append((p, open(p, 'rb').read(), st.st_mode, int(st.st_mtime)))
                 except OSError as exc:
                     out.append((p, repr(exc).encode()))
         for n in sorted(dirs):
@@ -68,7 +75,7 @@ def scp_symbols(tier):
     return syms
 
 
-def scp_run(records, dest_exists=True):
+def scp_run(records, dest_exists=True, preserve=False):
     w, dest = prep()
     if not dest_exists:
         shutil.rmtree(dest)
@@ -107,7 +114,7 @@ def scp_run(records, dest_exists=True):
         pair.handshake()
         mon = fsmon.start(dest if dest_exists else os.path.dirname(dest))
         try:
-            t = loop.create_task(asyncssh.scp((pair.c, 'src'), dest, recurse=True))
+            t = loop.create_task(asyncssh.scp((pair.c, 'src'), dest, recurse=True, preserve=preserve))
             loop.flush_all()
             if not t.done():
                 # the hostile source went silent: drop the connection, the sink must then finish
@@ -138,13 +145,17 @@ def scp_worker(job):
     acc = core.Acc()
     try:
         for records in job:
-            viol = scp_run(records)
-            acc.add(core.digest(('scp', records)), transitions=len(records),
+            preserve = bool(records) and records[0] == ('preserve',)
+            if preserve:
+                records = records[1:]
+            viol = scp_run(records, preserve=preserve)
+            acc.add(core.digest(('scp', records, preserve)), transitions=len(records),
                     sample={'scp_records': [[r[0]] + [x.decode('latin1') for x in r[1:]] for r in records]}
                     if len(records) == 3 and records[0] == ('D', b'a') else None)
             for k, d in viol:
-                acc.violation('download:%s:scp:%s' % (k, ''.join(r[0] for r in records)),
-                              '%s ; records=%r' % (d, records), {'kind': 'dl-scp', 'records': [[r[0]] + [x.decode('latin1') for x in r[1:]] for r in records]})
+                acc.violation('download:%s:scp%s:%s' % (k, '-p' if preserve else '', ''.join(r[0] for r in records)),
+                              '%s ; records=%r preserve=%r' % (d, records, preserve),
+                              {'kind': 'dl-scp', 'records': ([['preserve']] if preserve else []) + [[r[0]] + [x.decode('latin1') for x in r[1:]] for r in records]})
     finally:
         shutil.rmtree(wdir(), ignore_errors=True)
     return acc
@@ -218,6 +229,10 @@ def sftp_run(listing, nested, api):
         try:
             if api == 'get':
                 coro = sftp.get(b'/dir', dest.encode(), recurse=True, follow_symlinks=False)
+            elif api == 'get-preserve':
+                coro = sftp.get(b'/dir', dest.encode(), recurse=True, follow_symlinks=False, preserve=True)
+            elif api == 'mget-preserve':
+                coro = sftp.mget(b'/dir/*', dest.encode(), recurse=True, preserve=True)
             elif api == 'get-follow':
                 coro = sftp.get(b'/dir', dest.encode(), recurse=True, follow_symlinks=True)
             else:
@@ -280,10 +295,12 @@ def run(tier, seed):
             for c in syms:
                 if tier == 'thorough' or b[0] in ('C', 'D', 'E'):
                     seqs.append((d, b, c))
+    short = [q for q in seqs if len(q) <= 2]
+    seqs += [(('preserve',),) + q for q in short] + [(('preserve',), ('T',)) + q for q in short if q and q[0][0] in 'CD']
     acc = core.pmap(scp_worker, core.rotate([seqs[i::64] for i in range(64)], seed))
     ents = [(n, k) for n in NAMES for k in ('f', 'd', 'l')]
     jobs = []
-    for api in ('get', 'mget', 'get-follow'):
+    for api in ('get', 'mget', 'get-follow', 'get-preserve', 'mget-preserve'):
         for e in ents:
             for nested in ((b'inner',), (b'../z',), (b'/abs/z',)):
                 if e[1] != 'd' and nested != (b'inner',):
